@@ -40,7 +40,8 @@ class Fn:
 class Block:
     """A non-function region (table, enum, constants) cut from /repo and rewritten."""
 
-    def __init__(self, file, start, name, rules=(), end=None, after=None, loops=None, nloops=None):
+    def __init__(self, file, start, name, rules=(), end=None, after=None, loops=None, nloops=None, hidden=False):
+        self.hidden = hidden   # used only by Unit.gen, not placed in the template
         self.loops = dict(loops or {})
         self.nloops = nloops
         self.file = file
